@@ -137,11 +137,11 @@ def run(ck):
             consts[mode] = {"MaxLen": 5, "Sample": True, "behaviours": n}
         else:
             consts[mode] = {"MaxLen": 3, "Sample": False}
-        ck.tlc("html", "HtmlDoc", cfg, label="generator: %s documents" % mode, env={"VERIF_CASES": cases}, timeout=280, **kw)
+        ck.tlc("html", "HtmlDoc", cfg, label="generator: %s documents" % mode, env={"VERIF_CASES": cases}, timeout=900, **kw)
         if thorough:
             # the exhaustive vocabulary of the quick tier is part of the thorough tier too
             q = ck.path("cases-%s-q.ndjson" % mode)
-            ck.tlc("html", "HtmlDoc", CFG[mode][0], label="generator: %s documents (exhaustive part)" % mode, env={"VERIF_CASES": q}, timeout=280)
+            ck.tlc("html", "HtmlDoc", CFG[mode][0], label="generator: %s documents (exhaustive part)" % mode, env={"VERIF_CASES": q}, timeout=900)
             with open(cases, "a") as out:
                 first = True
                 for line in open(q):
